@@ -16,10 +16,19 @@ import (
 	"strings"
 )
 
-var protected = map[string]bool{"decoys": true, "decoysTimeouts": true, "Valid": true, "regCount": true}
+// protected field -> name of the mutex field that guards it
+var protected = map[string]string{
+	"decoys": "m", "decoysTimeouts": "m", "Valid": "m", "regCount": "m",
+	"PhantomSelector": "reloadMu", "GeoIP": "reloadMu",
+	"covertBlocklistSubnets": "policyMu", "covertAllowlistSubnets": "policyMu", "enableCovertAllowlist": "policyMu",
+	"covertBlocklistDomains": "policyMu", "phantomBlocklist": "policyMu",
+}
+
+var mutexes = map[string]bool{"m": true, "reloadMu": true, "policyMu": true}
 
 type row struct {
 	name   string
+	locks  map[string]string // mutex field -> "R" | "W"
 	lock   string
 	reads  map[string]bool
 	writes map[string]bool
@@ -27,11 +36,17 @@ type row struct {
 }
 
 func main() {
-	dir, out := os.Args[1], os.Args[2]
+	dirs, out := os.Args[1:len(os.Args)-1], os.Args[len(os.Args)-1]
 	fset := token.NewFileSet()
-	pkgs, err := parser.ParseDir(fset, dir, func(fi os.FileInfo) bool { return !strings.HasSuffix(fi.Name(), "_test.go") }, 0)
-	if err != nil {
-		panic(err)
+	pkgs := map[string]*ast.Package{}
+	for _, dir := range dirs {
+		ps, err := parser.ParseDir(fset, dir, func(fi os.FileInfo) bool { return !strings.HasSuffix(fi.Name(), "_test.go") }, 0)
+		if err != nil {
+			panic(err)
+		}
+		for k, v := range ps {
+			pkgs[dir+"/"+k] = v
+		}
 	}
 	var rows []*row
 	funcs := map[string]bool{}
@@ -51,7 +66,7 @@ func main() {
 				if !ok || fd.Body == nil {
 					continue
 				}
-				r := &row{name: fd.Name.Name, lock: "none", reads: map[string]bool{}, writes: map[string]bool{}, calls: map[string]bool{}}
+				r := &row{name: fd.Name.Name, lock: "none", locks: map[string]string{}, reads: map[string]bool{}, writes: map[string]bool{}, calls: map[string]bool{}}
 				if fd.Recv != nil && len(fd.Recv.List) > 0 {
 					t := fd.Recv.List[0].Type
 					if s, ok := t.(*ast.StarExpr); ok {
@@ -93,13 +108,13 @@ func main() {
 					switch x := n.(type) {
 					case *ast.CallExpr:
 						if sel, ok := x.Fun.(*ast.SelectorExpr); ok {
-							if inner, ok := sel.X.(*ast.SelectorExpr); ok && inner.Sel.Name == "m" {
+							if inner, ok := sel.X.(*ast.SelectorExpr); ok && mutexes[inner.Sel.Name] {
 								switch sel.Sel.Name {
 								case "Lock":
-									r.lock = "W"
+									r.locks[inner.Sel.Name] = "W"
 								case "RLock":
-									if r.lock == "none" {
-										r.lock = "R"
+									if r.locks[inner.Sel.Name] == "" {
+										r.locks[inner.Sel.Name] = "R"
 									}
 								}
 							}
@@ -110,7 +125,7 @@ func main() {
 							r.calls[id.Name] = true
 						}
 					case *ast.SelectorExpr:
-						if protected[x.Sel.Name] {
+						if protected[x.Sel.Name] != "" {
 							if wr[x] {
 								r.writes[x.Sel.Name] = true
 							} else {
@@ -120,7 +135,7 @@ func main() {
 					}
 					return true
 				})
-				if len(r.reads)+len(r.writes) > 0 || r.lock != "none" || len(r.calls) > 0 {
+				if len(r.reads)+len(r.writes) > 0 || len(r.locks) > 0 || len(r.calls) > 0 {
 					rows = append(rows, r)
 				}
 			}
@@ -167,7 +182,22 @@ func main() {
 	var b strings.Builder
 	b.WriteString("/-! GENERATED by go/extract/lockset from pkg/station/lib (go/ast facts) — do not edit. -/\nnamespace CJ.Gen\n\n")
 	b.WriteString("inductive LockMode | none | R | W\nderiving DecidableEq, Repr\n\n")
-	b.WriteString("structure FnFacts where\n  name : String\n  short : String\n  lock : LockMode\n  reads : List String\n  writes : List String\n  calls : List String\nderiving Repr\n\n")
+	b.WriteString("structure FnFacts where\n  name : String\n  short : String\n  locks : List (String × LockMode)\n  reads : List String\n  writes : List String\n  calls : List String\nderiving Repr\n\n")
+	b.WriteString("/-- which mutex field guards which protected field -/\ndef guardOf : List (String × String) := [")
+	{
+		var ks []string
+		for k := range protected {
+			ks = append(ks, k)
+		}
+		sort.Strings(ks)
+		for i, k := range ks {
+			if i > 0 {
+				b.WriteString(", ")
+			}
+			fmt.Fprintf(&b, "(%q, %q)", k, protected[k])
+		}
+	}
+	b.WriteString("]\n\n")
 	b.WriteString("def lockTable : List FnFacts := [\n")
 	first := true
 	for _, r := range rows {
@@ -178,7 +208,13 @@ func main() {
 			b.WriteString(",\n")
 		}
 		first = false
-		fmt.Fprintf(&b, "  { name := %q, short := %q, lock := .%s, reads := %s, writes := %s, calls := %s }", r.name, short(r.name), r.lock, keys(r.reads, nil), keys(r.writes, nil), keys(r.calls, relevant))
+		var ls []string
+		for _, mu := range []string{"m", "policyMu", "reloadMu"} {
+			if md := r.locks[mu]; md != "" {
+				ls = append(ls, fmt.Sprintf("(%q, .%s)", mu, md))
+			}
+		}
+		fmt.Fprintf(&b, "  { name := %q, short := %q, locks := [%s], reads := %s, writes := %s, calls := %s }", r.name, short(r.name), strings.Join(ls, ", "), keys(r.reads, nil), keys(r.writes, nil), keys(r.calls, relevant))
 	}
 	b.WriteString("\n]\n\nend CJ.Gen\n")
 	if err := os.WriteFile(out, []byte(b.String()), 0o644); err != nil {
